@@ -2,7 +2,7 @@ import OH.Proofs.HintDated
 import OH.Proofs.EvalSpecDatedClass
 /-
 Layer B — dated ranges without a year on the start (`MonthdayRange.date`), soundness of the hint for
-day offsets of ANY size within ±100 000 days.
+day offsets of ANY size within ±30 000 000 days (±300 000 days when a bound is Easter).
 
 Since the search windows of `MonthdayRange::Date` are centred on the year the bound has to come from
 (`yearBeforeOffset`: the year of `d - day offset`), the filter is the specification's `datedOk` on every
@@ -223,10 +223,12 @@ theorem hint_generic (s : DateSpec) (so : DateOffset) (e : DateSpec) (eo : DateO
     exact ⟨heq, rfl⟩
   · simp only [hsi, h1, h2, ok_bind, pure_eq_ok]
 
-/-- **S3**: two yearless bounds (not a single fixed day), day offsets within ±100 000 days: the hint is
-sound on every day of the evaluation window, whatever the size of the shifts. -/
-theorem dated_yearless_hintOK (s : DateSpec) (so : DateOffset) (e : DateSpec) (eo : DateOffset)
-    (hs : BoundOK s so) (he : BoundOK e eo) (hsy : specYear s = none) (hey : specYear e = none)
+/-- **S3**: two yearless bounds (not a single fixed day), day offsets within ±30 000 000 days (`L`: the years
+`year d ± yearSpan` are years the bounds are known on): the hint is sound on every day of the evaluation
+window, whatever the size of the shifts. -/
+theorem dated_yearless_hintOK {L : Int} (s : DateSpec) (so : DateOffset) (e : DateSpec) (eo : DateOffset)
+    (hs : BoundOK L s so) (he : BoundOK L e eo) (hL : L + yearSpan so eo ≤ 1899)
+    (hsy : specYear s = none) (hey : specYear e = none)
     (hns : ¬ (s = e ∧ isFixedDate s = true)) (d : Int) (hd1 : dateStart ≤ d) (hd2 : d < dateEnd) :
     HintOK (MonthdayRange.date s so e eo).filter (MonthdayRange.date s so e eo).hint d := by
   have hy : 1899 ≤ year d ∧ year d ≤ 9999 := year_window (by omega) hd2
@@ -235,6 +237,7 @@ theorem dated_yearless_hintOK (s : DateSpec) (so : DateOffset) (e : DateSpec) (e
   have nE := year_sub_near d eo.days
   have hss := hs.small
   have hes := he.small
+  have hwdef : yearSpan so eo = 3 + (so.days.natAbs + eo.days.natAbs) / 365 := yearSpan_small so eo hss hes
   have eS := yearBeforeOffset_eq d so hs.small (by omega)
   have eE := yearBeforeOffset_eq d eo he.small (by omega)
   have iS : InY (year (d - so.days)) (d - so.days) := inY_year _
@@ -251,14 +254,14 @@ theorem dated_yearless_hintOK (s : DateSpec) (so : DateOffset) (e : DateSpec) (e
     rfl
   refine HintOK.of_some (hint_generic s so e eo d hsy hns _ _ b1 b2) (nextChange_gt _ d hd2) ?_
   intro d' a b c
-  rw [dated_yearless_eq s so e eo d' hs he hsy hey hns (by omega) c,
-    dated_yearless_eq s so e eo d hs he hsy hey hns (by omega) hd2]
+  rw [dated_yearless_eq s so e eo d' hs he hL hsy hey hns (by omega) c,
+    dated_yearless_eq s so e eo d hs he hL hsy hey hns (by omega) hd2]
   congr 1
   -- the projections
   have mS := projT_stepMono hs hsy true
   have mE := projT_stepMono he hey false
-  have posS := fun k (hk : 0 ≤ k ∧ k ≤ 20000) => projT_pos hs hsy true k hk
-  have posE := fun k (hk : 0 ≤ k ∧ k ≤ 20000) => projT_pos he hey false k hk
+  have posS := fun k (hk : L ≤ k ∧ k ≤ 175000) => projT_pos hs hsy true k hk
+  have posE := fun k (hk : L ≤ k ∧ k ≤ 175000) => projT_pos he hey false k hk
   have rS := pos_range s hs.wf
   have rE := pos_range e he.wf
   have gtS := lt_projT_of_year hs hsy true d _ (year (d - so.days) + 2) iS (by omega) (by omega)
@@ -268,11 +271,11 @@ theorem dated_yearless_hintOK (s : DateSpec) (so : DateOffset) (e : DateSpec) (e
   generalize hys : year (d - so.days) = ys at *
   generalize hye : year (d - eo.days) = ye at *
   have fS := run_filterMap (proj s so true) (projT s so true) (ys - 2) 13
-    (fun k a b => proj_eq_projT s so true hs.wf hsy k (by omega))
+    (fun k a b => proj_eq_projT s so true hs.wf hsy k (hs.yr (by omega)))
   have fE := run_filterMap (proj e eo false) (projT e eo false) (ye - 2) 13
-    (fun k a b => proj_eq_projT e eo false he.wf hey k (by omega))
-  have sortS := run_map_sorted (projT s so true) 0 20000 (ys - 2) 13 mS (by omega) (by omega)
-  have sortE := run_map_sorted (projT e eo false) 0 20000 (ye - 2) 13 mE (by omega) (by omega)
+    (fun k a b => proj_eq_projT e eo false he.wf hey k (he.yr (by omega)))
+  have sortS := run_map_sorted (projT s so true) L 175000 (ys - 2) 13 mS (by omega) (by omega)
+  have sortE := run_map_sorted (projT e eo false) L 175000 (ye - 2) 13 mE (by omega) (by omega)
   -- the hint is at most 1135 days away
   have hbound : d' ≤ d + 1134 := by
     rw [fS, fE, intervalsFromBounds, ensureIncreasing_of_sorted _ sortS, ensureIncreasing_of_sorted _ sortE] at b
@@ -281,9 +284,9 @@ theorem dated_yearless_hintOK (s : DateSpec) (so : DateOffset) (e : DateSpec) (e
       (projT e eo false (ye + 2))
       (List.mem_map.2 ⟨ye + 2, (mem_yearRun _ _ _).2 ⟨by omega, by omega⟩, rfl⟩) (by omega)
       (by
-        have := yearStart_le (a := ye + 2) (b := 20000) (by omega)
-        have := yearStart_20001
-        have := yearStart_step 20000 20001 rfl
+        have := yearStart_le (a := ye + 2) (b := 175000) (by omega)
+        have := yearStart_hi
+        have := yearStart_step 175000 175001 rfl
         rw [maxDay_eq]
         simp only [shiftLo, shiftHi] at pE2
         omega)
@@ -306,9 +309,9 @@ theorem dated_yearless_hintOK (s : DateSpec) (so : DateOffset) (e : DateSpec) (e
     omega
   have lS : ys ≤ year (d' - so.days) := by rw [← hys]; exact year_mono (by omega)
   have lE : ye ≤ year (d' - eo.days) := by rw [← hye]; exact year_mono (by omega)
-  rw [← dated_window_eq s so e eo d' hs he hsy hey hns (by omega) c (ys - 2) 13 (ye - 2) 13 (by omega) (by omega)
+  rw [← dated_window_eq s so e eo d' hs he hL hsy hey hns (by omega) c (ys - 2) 13 (ye - 2) 13 (by omega) (by omega)
       (by omega) (by omega) (by omega) (by omega),
-    ← dated_window_eq s so e eo d hs he hsy hey hns (by omega) hd2 (ys - 2) 13 (ye - 2) 13 (by omega) (by omega)
+    ← dated_window_eq s so e eo d hs he hL hsy hey hns (by omega) hd2 (ys - 2) 13 (ye - 2) 13 (by omega) (by omega)
       (by omega) (by omega) (by omega) (by omega)]
   apply intervals_sound _ d d' ?_ a b c
   intro r hr
@@ -364,8 +367,8 @@ theorem hint_single (m dd : Nat) (so eo : DateOffset) (d : Int) (res : Option (I
 
 /-- an occurrence that contains the day is one the specification looks at -/
 theorem sd_contains_spec (m dd : Nat) (so eo : DateOffset)
-    (hss : -100000 ≤ so.days ∧ so.days ≤ 100000) (hes : -100000 ≤ eo.days ∧ eo.days ≤ 100000)
-    (x : Int) (k f : Int) (hk : 0 ≤ k ∧ k ≤ 20000) (hf : ofYmd? k m dd = some f)
+    (hss : -30000000 ≤ so.days ∧ so.days ≤ 30000000) (hes : -30000000 ≤ eo.days ∧ eo.days ≤ 30000000)
+    (x : Int) (k f : Int) (hk : -165000 ≤ k ∧ k ≤ 175000) (hf : ofYmd? k m dd = some f)
     (h1 : shift so f ≤ x) (h2 : x ≤ shift eo f) :
     datedOk (.fixed none m dd) so (.fixed none m dd) eo x = true := by
   have hwdef : yearSpan so eo = 3 + (so.days.natAbs + eo.days.natAbs) / 365 := yearSpan_small so eo hss hes
@@ -380,10 +383,10 @@ theorem sd_contains_spec (m dd : Nat) (so eo : DateOffset)
 /-- the specification selects a day through an occurrence that is not older than the year before the year
 of `x - end offset` -/
 theorem spec_sd_elim (m dd : Nat) (so eo : DateOffset)
-    (hss : -100000 ≤ so.days ∧ so.days ≤ 100000) (hes : -100000 ≤ eo.days ∧ eo.days ≤ 100000)
+    (hss : -30000000 ≤ so.days ∧ so.days ≤ 30000000) (hes : -30000000 ≤ eo.days ∧ eo.days ≤ 30000000)
     (x : Int) (hx1 : dateStart - 1 ≤ x) (hx2 : x < dateEnd)
     (h : datedOk (.fixed none m dd) so (.fixed none m dd) eo x = true) :
-    ∃ k f, (0 ≤ k ∧ k ≤ 20000) ∧ year (x - eo.days) - 1 ≤ k ∧ ofYmd? k m dd = some f ∧
+    ∃ k f, (-165000 ≤ k ∧ k ≤ 175000) ∧ year (x - eo.days) - 1 ≤ k ∧ ofYmd? k m dd = some f ∧
       shift so f ≤ x ∧ x ≤ shift eo f := by
   have hy : 1899 ≤ year x ∧ year x ≤ 9999 := year_window hx1 hx2
   have hw := yearSpan_bounds so eo hss hes
@@ -402,12 +405,12 @@ theorem spec_sd_elim (m dd : Nat) (so eo : DateOffset)
     omega
   · omega
 
-/-- **S2**: a single fixed day without a year, day offsets within ±100 000 days: the hint is sound on
+/-- **S2**: a single fixed day without a year, day offsets within ±30 000 000 days: the hint is sound on
 every day of the evaluation window, whatever the size of the shifts (occurrences longer than a year,
 February 29th included). -/
 theorem dated_single_hintOK (m dd : Nat) (so eo : DateOffset)
-    (hso : so.wday.wf = true) (hss : -100000 ≤ so.days ∧ so.days ≤ 100000)
-    (heo : eo.wday.wf = true) (hes : -100000 ≤ eo.days ∧ eo.days ≤ 100000)
+    (hso : so.wday.wf = true) (hss : -30000000 ≤ so.days ∧ so.days ≤ 30000000)
+    (heo : eo.wday.wf = true) (hes : -30000000 ≤ eo.days ∧ eo.days ≤ 30000000)
     (d : Int) (hd1 : dateStart ≤ d) (hd2 : d < dateEnd) :
     HintOK (MonthdayRange.date (.fixed none m dd) so (.fixed none m dd) eo).filter
       (MonthdayRange.date (.fixed none m dd) so (.fixed none m dd) eo).hint d := by
@@ -440,7 +443,7 @@ theorem dated_single_hintOK (m dd : Nat) (so eo : DateOffset)
     · rintro ⟨k, hk, f, hf, rfl⟩; exact ⟨k, by omega, f, hf, rfl⟩
     · rintro ⟨k, hk, f, hf, rfl⟩; exact ⟨k, by omega, f, hf, rfl⟩
   -- a later occurrence (year `c+11` or after) comes with one of the years `c+1 … c+8` that ends after `d`
-  have hlate : ∀ k f, c + 11 ≤ k → k ≤ 20000 → ofYmd? k m dd = some f →
+  have hlate : ∀ k f, c + 11 ≤ k → k ≤ 175000 → ofYmd? k m dd = some f →
       ∃ k1 f1, (c - 1 ≤ k1 ∧ k1 < c - 1 + 12) ∧ ofYmd? k1 m dd = some f1 ∧ d < shift eo f1 ∧
         shift so f1 < shift so f := by
     intro k f hk1 hk2 hf
